@@ -44,6 +44,11 @@ def make_scenario(assign, rng, share_exe=None, n_val=None, deco=None, retries=No
             return dict(OK, dps=rng.choice([1, 2, 3, 4]))
         if b == 'ok' or b == 'done':
             sc = [ok() for _ in range(n)]
+        elif b == 'fail0' and rng.random() < 0.25:
+            # the process cannot be started at all: Popen raises OSError (ENOENT: the working directory of the
+            # suite does not exist; EACCES). Only this run is concerned, whatever executor it uses.
+            sc = [{'oserror': rng.choice([2, 2, 13])}]
+            r['oserror'] = True
         elif b == 'fail0':
             sc = [dict(rng.choice([FAIL, {'rc': 0, 'dps': 0}, {'rc': 0, 'dps': 1, 'marker': True}, {'rc': -9, 'dps': 1},
                                    {'rc': 126, 'dps': 0}]))] * (r['retries'] + 1)
@@ -226,6 +231,11 @@ def run_scenario(ck, scn, scripts, sched, choices, faulty, tag, stop_at=None, wi
         ck.count('custom-adapters-same-class-name')
         if any(len(v) > 1 and any(v) and not all(v) for v in cls_names.values()):
             ck.count('unknown-adapter-shares-name-with-valid-one')
+    if any(r.get('oserror') for r in scn['runs']):
+        ck.count('run-that-cannot-be-started (OSError)')
+        exes = [r['exe'] for r in scn['runs']]
+        if any(r.get('oserror') and exes.count(r['exe']) > 1 for r in scn['runs']):
+            ck.count('OSError-run-shares-executor-with-healthy-runs')
     if stop_at is not None and any(r.get('maxtime') is not None for r in scn['runs']):
         ck.count('abort-with-max_invocation_time')
     for r, sc in zip(scn['runs'], scripts):
